@@ -92,7 +92,15 @@ class Edits:
             return False
         t = self.simple_type(ns)
         f = {'name': name, 'type': t, 'doc': None, 'default': None, 'annots': []}
-        if t[0] == 'prim' and t[1] not in ('Bytes', 'Timestamp', 'Void') and g.p(50):
+        # evolve_spec: a new field with a default is optional; for a union-typed field the default is a void tag
+        unions = [(un, u) for un in [ns['name']] + ns['imports'] for u in self.idx.ns[un]['defs'] if u['k'] == 'union'
+                  and any(tg['type'] is None for _, _, tg in self.idx.union_all_tags(un, u, False))]
+        if unions and g.p(25):
+            un, u = g.choice(unions)
+            voids = [tg['name'] for _, _, tg in self.idx.union_all_tags(un, u, False) if tg['type'] is None]
+            f['type'] = ('ref', un, u['name'])
+            f['default'] = ('tag', g.choice(voids))
+        elif t[0] == 'prim' and t[1] not in ('Bytes', 'Timestamp', 'Void') and g.p(50):
             from ..values import prim_value_strategy, to_spec_literal
             f['default'] = ('lit', to_spec_literal(t, self.draw(prim_value_strategy(t, for_spec=True))))
         else:
@@ -106,8 +114,12 @@ class Edits:
         unions = [(n, d) for n, d in self.idx.types(('union',)) if self.idx.is_open(n, d)]
         if not unions:
             return False
-        deep = [(n_, d_) for n_, d_ in unions if len(self.idx.chain(n_, d_)) >= 2]
-        n, d = g.choice(deep if deep and g.p(50) else unions)
+        # the catch-all is inherited through every level: prefer the deepest unions
+        depth = {(n_, d_['name']): len(self.idx.chain(n_, d_)) for n_, d_ in unions}
+        top = max(depth.values())
+        deepest = [(n_, d_) for n_, d_ in unions if depth[(n_, d_['name'])] == top and top >= 2]
+        deep = [(n_, d_) for n_, d_ in unions if depth[(n_, d_['name'])] >= 2]
+        n, d = g.choice(deepest if deepest and g.p(40) else deep if deep and g.p(50) else unions)
         name = self.fresh('zz_tag')
         if name in self.family_names(n, d):
             return False
@@ -398,6 +410,41 @@ def run(case, rec):
     ss, bv, bb = pygen.stone_runtime()
     kinds = '+'.join(sorted(set(case['kinds'])))
     try:
+        # "the new fields at their defaults": what a B peer reads for a new field that an A message does
+        # not carry is the declared default (a ready instance of the union for a tag default)
+        for nB, dB in idxB.types(('struct',)):
+            nameA = a_name(case['ren'], nB, dB['name'])
+            if (nB, nameA) not in idxA.defs or idxA.get(nB, nameA)['k'] != 'struct':
+                continue
+            known = {f['name'] for f in idxA.get(nB, nameA)['fields']}
+            for f in dB['fields']:
+                if f['name'] in known or f.get('default') is None:
+                    continue
+                b = idxB.base(f['type'])
+                if b[0] == 'prim' and b[1] in ('Bytes', 'Timestamp'):
+                    continue
+                rec.case(core.h64((kinds, 'default', nB, dB['name'], f['name'], repr(render.render(apiB)[0]))), True,
+                         classes=['new_field_default:' + f['default'][0]])
+                try:
+                    got = getattr(pkgB.cls(nB, dB['name'])(), f['name'])
+                    kind, dv = f['default']
+                    if kind == 'tag':
+                        ok = isinstance(got, bb.Union) and got._tag == dv and got._value is None
+                    elif isinstance(dv, bool) or isinstance(got, bool):
+                        ok = type(got) is bool and got == dv
+                    elif isinstance(dv, (int, float)):
+                        ok = isinstance(got, (int, float)) and float(got) == float(dv)
+                    else:
+                        ok = type(got) is type(dv) and got == dv
+                    if not ok:
+                        rec.violation('C07|new-field-default|%s' % kind,
+                                      'a message of the old spec leaves the new field %s.%s.%s unset and the new peer reads %r '
+                                      'instead of the declared default %r [edits: %s]' % (nB, dB['name'], f['name'], got, dv, kinds),
+                                      case=dict(case, itemsB=[], itemsA=[]), human={'A': specsA, 'B': specsB, 'edits': case['kinds']})
+                except Exception as e:
+                    rec.violation('C07|new-field-default-raised|%s' % type(e).__name__,
+                                  'reading the unset new field %s.%s.%s raised %r [edits: %s]' % (nB, dB['name'], f['name'], e, kinds),
+                                  case=dict(case, itemsB=[], itemsA=[]), human={'A': specsA, 'B': specsB, 'edits': case['kinds']})
         for key, t, v in case['itemsB']:
             keyA = ('named', key[1], a_name(case['ren'], key[1], key[2]))
             tA = (t[0], key[1], keyA[2])
@@ -502,4 +549,4 @@ def ref_reason(msg):
 
 
 def parts(ctx):
-    return [Part('histories', run, strategy=histories(), n=ctx.n(600, 6000), budget_s=ctx.n(150, 3000))]
+    return [Part('histories', run, strategy=histories(), n=ctx.n(1400, 12000), budget_s=ctx.n(150, 3000))]
